@@ -25,7 +25,8 @@ func (propC17) Gen(seed uint64, tier string, idx int) *Plan {
 	p.Stack = defaultStack(r)
 	p.Stack.ConnTimeout = time.Second
 	epType := pickS(r, []string{"vllm", "sglang"})
-	for i := 1; i <= 2; i++ {
+	nEp := 1 + r.Pick(2) // a single candidate leaves nothing to fail over to: the limits hold all the same
+	for i := 1; i <= nEp; i++ {
 		ep := endpoint(i, epType, 100)
 		ep.Models = []string{"m1"}
 		ep.Default = Resp{Kind: "llm", Status: 200}
@@ -237,6 +238,10 @@ func (propC17) Check(r *Run) []Violation {
 			for _, e := range exs {
 				if int64(e.BodyLen) > limit {
 					add("C17/oversized-body-forwarded"+disc, "op %d: body of %d B (limit %d) reached backend %s (%d B received)", c.OpID, size, limit, e.Backend, e.BodyLen)
+				} else if size > limit {
+					// "no request whose body exceeds the maximum is forwarded": a request line, headers and the
+					// first bytes of such a body at a backend are a forwarded request, aborted or not
+					add("C17/oversized-request-dispatched"+disc, "op %d: body of %d B (limit %d): backend %s received the request (%s %s, %d body bytes before it was cut)", c.OpID, size, limit, e.Backend, e.Method, e.Path, e.BodyLen)
 				}
 			}
 			if size > limit && len(exs) == 0 && c.Status != 413 && c.Status != 0 {
